@@ -5,6 +5,7 @@ import (
 	"go/token"
 	"go/types"
 	"reflect"
+	"regexp"
 	"sort"
 	"strings"
 )
@@ -39,7 +40,21 @@ func atomsAt(f *FuncInfo, root ast.Node, pos token.Pos) (map[string]guardAtom, b
 	if best == nil {
 		return nil, false
 	}
-	return best.Atoms, true
+	// disjunctive conjuncts are listed too, one pseudo-atom per member (keyed by the whole literal): the callers of
+	// atomsAt ask what a guard involves, not what it establishes
+	if len(best.OrAtoms) == 0 {
+		return best.Atoms, true
+	}
+	all := map[string]guardAtom{}
+	for k, a := range best.Atoms {
+		all[k] = a
+	}
+	for k, as := range best.OrAtoms {
+		for i, a := range as {
+			all[k+"#"+itoa(i)] = a
+		}
+	}
+	return all, true
 }
 
 // mentions reports whether e contains a sub-expression satisfying pred.
@@ -1356,4 +1371,884 @@ func eventOf(p *Prog, info *types.Info, call *ast.CallExpr) string {
 		return "delete-label"
 	}
 	return ""
+}
+
+// checkTokenFeedbackNotRetried (generic): a paginated step `page, token, err = f(… token …)` overwrites its own
+// continuation token with the result of the call. After a failed call the token no longer designates the page that
+// failed (stores return an empty one), so the step is never executed again on a path where its error is non-nil or
+// untested: a retry silently restarts the scan from the first page and the listing reports objects twice, with no error.
+func checkTokenFeedbackNotRetried(c *Ctx, rule string, pkgs ...string) int {
+	p := c.P
+	n := 0
+	for _, pk := range pkgs {
+		for _, f := range p.FuncsIn(pk) {
+			if f.Decl.Body == nil {
+				continue
+			}
+			for _, b := range p.BodiesOf(f) {
+				info := b.Info()
+				var steps []*ast.CallExpr
+				ast.Inspect(b.Block, func(nd ast.Node) bool {
+					if l, ok := nd.(*ast.FuncLit); ok && l != b.Lit {
+						return false
+					}
+					as, ok := nd.(*ast.AssignStmt)
+					if !ok || len(as.Rhs) != 1 || len(as.Lhs) < 2 {
+						return true
+					}
+					call, ok := ast.Unparen(as.Rhs[0]).(*ast.CallExpr)
+					if !ok {
+						return true
+					}
+					hasErr := false
+					var tok *types.Var
+					for _, l := range as.Lhs {
+						id, ok := ast.Unparen(l).(*ast.Ident)
+						if !ok {
+							continue
+						}
+						v, _ := info.ObjectOf(id).(*types.Var)
+						if v == nil {
+							continue
+						}
+						if isErrorType(v.Type()) {
+							hasErr = true
+							continue
+						}
+						if bt, ok := v.Type().Underlying().(*types.Basic); ok && bt.Kind() == types.String {
+							if mentions(call, func(e ast.Expr) bool { return isVar(info, e, v) }) {
+								tok = v
+							}
+						}
+					}
+					if hasErr && tok != nil {
+						steps = append(steps, call)
+					}
+					return true
+				})
+				for i, step := range steps {
+					step := step
+					isStep := func(bb *Body, call *ast.CallExpr) bool { return call == step }
+					isTarget := func(nd ast.Node) bool { return nd == ast.Node(step) }
+					bad, nT, _ := b.guardedByNilErrOpt(isStep, isTarget, true)
+					if nT == 0 {
+						continue
+					}
+					n++
+					c.check(len(bad) == 0, rule, b.Key()+":step#"+itoa(i+1), p.Pos(step.Pos()),
+						"the paginated step is not executed again after it failed",
+						"`"+exprString(step)+"` feeds its own continuation token and can be executed again on a path where its error is non-nil or untested: the failed call has replaced the token, so the retry restarts the scan at the first page and the listing silently reports earlier objects twice")
+				}
+			}
+		}
+	}
+	return n
+}
+
+// checkWaitGroupAddBeforeGo (generic): a goroutine that calls Add on the WaitGroup it then marks Done is not counted
+// until it has started: a Wait that runs first returns at once, and the caller goes on (reports success, closes what
+// the goroutine uses) while the work is still in flight.
+func checkWaitGroupAddBeforeGo(c *Ctx, rule string, pkgs ...string) int {
+	p := c.P
+	n := 0
+	for _, pk := range pkgs {
+		for _, f := range p.FuncsIn(pk) {
+			if f.Decl.Body == nil {
+				continue
+			}
+			info := f.Info()
+			k := 0
+			ast.Inspect(f.Decl.Body, func(nd ast.Node) bool {
+				g, ok := nd.(*ast.GoStmt)
+				if !ok {
+					return true
+				}
+				lit, ok := ast.Unparen(g.Call.Fun).(*ast.FuncLit)
+				if !ok {
+					return true
+				}
+				adds := map[string]token.Pos{}
+				dones := map[string]bool{}
+				ast.Inspect(lit.Body, func(m ast.Node) bool {
+					if l, ok := m.(*ast.FuncLit); ok && l != lit {
+						// a deferred literal of the goroutine still belongs to it
+						_ = l
+					}
+					call, ok := m.(*ast.CallExpr)
+					if !ok {
+						return true
+					}
+					sel, ok := ast.Unparen(call.Fun).(*ast.SelectorExpr)
+					if !ok {
+						return true
+					}
+					switch calleeID(info, call) {
+					case "sync.WaitGroup.Add":
+						adds[exprString(sel.X)] = call.Pos()
+					case "sync.WaitGroup.Done":
+						dones[exprString(sel.X)] = true
+					}
+					return true
+				})
+				for wg, pos := range adds {
+					if !dones[wg] {
+						continue // accounts for goroutines it starts itself
+					}
+					k++
+					n++
+					c.fail(rule, f.ID+":go#"+itoa(k), p.Pos(pos),
+						"the goroutine started at "+p.Pos(g.Pos())+" calls Add on `"+wg+"` itself and marks it Done: until it runs it is not counted, so a Wait reached first returns while this work has not started — the caller reports completion (or success) before the work, or its failure, happened")
+				}
+				return true
+			})
+		}
+	}
+	return n
+}
+
+// checkFetchKeysForwardsPages (C07, pooled): fetchKeys sends each page of keys exactly as its iterator returned it: the
+// `keys` of every event it sends is a variable defined only by the iterator call. Dropping or rewriting elements of a
+// page there (a "duplicate marker" guard, a filter) loses keys for stores whose tokens mean something else.
+func checkFetchKeysForwardsPages(c *Ctx, rule string) {
+	p := c.P
+	f := p.Func("pkg/core.fetchKeys")
+	info := f.Info()
+	n := 0
+	for _, cl := range compositeLits(f, "pkg/core.keyBatchEvent") {
+		v := fieldOfCompositeLit(cl, "keys")
+		if v == nil {
+			continue
+		}
+		n++
+		id, ok := ast.Unparen(v).(*ast.Ident)
+		okDefs := ok
+		why := exprString(v)
+		if ok {
+			vr, _ := info.Uses[id].(*types.Var)
+			defs := defsOfVarWithIndex(f, vr)
+			okDefs = vr != nil && len(defs) > 0
+			for _, d := range defs {
+				call, isCall := ast.Unparen(d.rhs).(*ast.CallExpr)
+				// anything but `page, token, err = iterator(token)`
+				if d.rhs == nil || !isCall || d.index != 0 || !isParamFuncCall(f, call) {
+					okDefs = false
+					if d.rhs != nil {
+						why = exprString(d.rhs)
+					}
+				}
+			}
+		}
+		c.check(okDefs, rule, f.ID+":keys#"+itoa(n), p.Pos(cl.Pos()), "a page is forwarded as the iterator returned it",
+			"fetchKeys sends keys that are not (only) the page its iterator returned (`"+why+"`): elements of a page are dropped or rewritten on the way, so listed objects go missing without an error")
+	}
+	if n == 0 {
+		c.shape3(rule, f.ID, "fetchKeys no longer sends keyBatchEvent{keys: …}")
+	}
+}
+
+// isParamFuncCall: the call invokes a function-typed parameter of f.
+func isParamFuncCall(f *FuncInfo, call *ast.CallExpr) bool {
+	id, ok := ast.Unparen(call.Fun).(*ast.Ident)
+	if !ok {
+		return false
+	}
+	v, ok := f.Info().Uses[id].(*types.Var)
+	return ok && isParamOf(f, v)
+}
+
+// checkEncodersDoNotRewrite (C11, C20; pooled): a function that serialises one of its parameters with yaml.Marshal
+// writes what it was given: it does not assign to the parameter's elements or fields first. (Entries carry the upload
+// times the diamond merge orders versions by; a rounding or normalisation at write time changes which version wins.)
+func checkEncodersDoNotRewrite(c *Ctx, rule string, pkgs ...string) int {
+	p := c.P
+	n := 0
+	for _, pk := range pkgs {
+		for _, f := range p.FuncsIn(pk) {
+			if f.Decl.Body == nil {
+				continue
+			}
+			info := f.Info()
+			params := map[*types.Var]bool{}
+			ast.Inspect(f.Decl.Body, func(nd ast.Node) bool {
+				call, ok := nd.(*ast.CallExpr)
+				if !ok || !strings.Contains(calleeID(info, call), "yaml") || !strings.HasSuffix(calleeID(info, call), ".Marshal") || len(call.Args) != 1 {
+					return true
+				}
+				ast.Inspect(call.Args[0], func(m ast.Node) bool {
+					if id, ok := m.(*ast.Ident); ok {
+						if v, ok := info.Uses[id].(*types.Var); ok && isParamOf(f, v) {
+							params[v] = true
+						}
+					}
+					return true
+				})
+				return true
+			})
+			for v := range params {
+				n++
+				bad := ""
+				var badPos token.Pos
+				ast.Inspect(f.Decl.Body, func(nd ast.Node) bool {
+					var lhs []ast.Expr
+					switch s := nd.(type) {
+					case *ast.AssignStmt:
+						lhs = s.Lhs
+					case *ast.IncDecStmt:
+						lhs = []ast.Expr{s.X}
+					}
+					for _, l := range lhs {
+						if _, plain := ast.Unparen(l).(*ast.Ident); plain {
+							continue
+						}
+						root := l
+						for {
+							switch x := ast.Unparen(root).(type) {
+							case *ast.IndexExpr:
+								root = x.X
+								continue
+							case *ast.SelectorExpr:
+								root = x.X
+								continue
+							case *ast.StarExpr:
+								root = x.X
+								continue
+							}
+							break
+						}
+						if isVar(info, root, v) && bad == "" {
+							bad, badPos = exprString(l), l.Pos()
+						}
+					}
+					return true
+				})
+				pos := p.Pos(f.Decl.Pos())
+				if bad != "" {
+					pos = p.Pos(badPos)
+				}
+				c.check(bad == "", rule, f.ID+":"+v.Name(), pos, "the value is serialised as it was given",
+					f.ID+" assigns `"+bad+"` before serialising `"+v.Name()+"`: what is stored is not what the caller recorded (for file lists: the upload times that order the versions of a path in a diamond merge), and the caller's own copy is changed too")
+			}
+		}
+	}
+	return n
+}
+
+// checkResultRoles (generic, same evidence as plumbing.argument-roles): `a, b, … = f(…)` where f, a function of the
+// repository, names its results. A variable on the left that carries the name of ANOTHER result of f of the same type
+// (lastIndex receiving the result f calls numKeys while numKeys exists among f's results) is a swap. Only such
+// cross-role evidence is reported; variables whose names say nothing are accepted.
+func checkResultRoles(c *Ctx, rule string, pkgs ...string) int {
+	p := c.P
+	n := 0
+	for _, pk := range pkgs {
+		for _, f := range p.FuncsIn(pk) {
+			if f.Decl.Body == nil {
+				continue
+			}
+			info := f.Info()
+			k := 0
+			ast.Inspect(f.Decl.Body, func(nd ast.Node) bool {
+				as, ok := nd.(*ast.AssignStmt)
+				if !ok || len(as.Rhs) != 1 || len(as.Lhs) < 2 {
+					return true
+				}
+				call, ok := ast.Unparen(as.Rhs[0]).(*ast.CallExpr)
+				if !ok {
+					return true
+				}
+				fn, ok := calleeObj(info, call).(*types.Func)
+				if !ok || fn.Pkg() == nil || !strings.HasPrefix(fn.Pkg().Path(), modPrefix) {
+					return true
+				}
+				res := fn.Type().(*types.Signature).Results()
+				if res.Len() != len(as.Lhs) {
+					return true
+				}
+				named := 0
+				for i := 0; i < res.Len(); i++ {
+					if res.At(i).Name() != "" && res.At(i).Name() != "_" {
+						named++
+					}
+				}
+				if named < 2 {
+					return true
+				}
+				k++
+				n++
+				bad := ""
+				for i, l := range as.Lhs {
+					id, ok := ast.Unparen(l).(*ast.Ident)
+					if !ok || id.Name == "_" {
+						continue
+					}
+					for j := 0; j < res.Len(); j++ {
+						if j != i && strings.EqualFold(res.At(j).Name(), id.Name) && !strings.EqualFold(res.At(i).Name(), id.Name) &&
+							types.Identical(res.At(j).Type(), res.At(i).Type()) {
+							bad = "`" + id.Name + "` receives result #" + itoa(i+1) + " of " + fn.Name() + " (which it calls `" + res.At(i).Name() + "`), while " + fn.Name() + " returns `" + res.At(j).Name() + "` as result #" + itoa(j+1)
+						}
+					}
+				}
+				key := f.ID + ":results#" + itoa(k)
+				if bad != "" {
+					c.fail(rule, key, p.Pos(as.Pos()), bad+": two results of the same type are taken in the wrong order, so each value is used for the other's purpose")
+				} else {
+					c.ok(rule, key, p.Pos(as.Pos()), "results are received in the order "+fn.Name()+" names them")
+				}
+				return true
+			})
+		}
+	}
+	return n
+}
+
+// checkFailsOnlyOnError (C14, pooled): the purge jobs give up only when one of their steps failed: every failure
+// return of PurgeDeleteUnused / PurgeBuildReverseIndex is reached under a guard saying that some error is non-nil. A
+// refusal on the *content* of what was read (an index with no key, a repository with no bundle) turns a legitimate
+// state into "nothing is deleted".
+func checkFailsOnlyOnError(c *Ctx, rule string) {
+	p := c.P
+	for _, fid := range []string{"pkg/core.PurgeDeleteUnused", "pkg/core.PurgeBuildReverseIndex"} {
+		f := p.Func(fid)
+		b := p.BodyOf(f)
+		info := f.Info()
+		n := 0
+		for _, ga := range guardedActions(f, f.Decl.Body) {
+			r, ok := ga.Node.(*ast.ReturnStmt)
+			if !ok || b.classifyReturn(r) != retFailure || innermostLit(f, r) != nil {
+				continue
+			}
+			n++
+			caused := false
+			for _, at := range ga.Atoms {
+				be, ok := ast.Unparen(at.Expr).(*ast.BinaryExpr)
+				if !ok || !(isNil(info, be.X) || isNil(info, be.Y)) {
+					continue
+				}
+				other := be.X
+				if isNil(info, be.X) {
+					other = be.Y
+				}
+				if t := info.TypeOf(other); t == nil || !isErrorType(t) {
+					continue
+				}
+				if (be.Op == token.NEQ && !at.Neg) || (be.Op == token.EQL && at.Neg) {
+					caused = true
+				}
+			}
+			var lits []string
+			for _, g := range ga.Guard {
+				lits = append(lits, g)
+			}
+			c.check(caused, rule, fid+":fail#"+itoa(n), p.Pos(r.Pos()), "the job fails here because a step returned an error",
+				fid+" gives up under `"+strings.Join(lits, " && ")+"`, a condition on what it read rather than a failed step: a legitimate state (e.g. an index holding no key once every bundle is gone) makes the job refuse to run, and nothing is deleted")
+		}
+		if n == 0 {
+			c.shape3(rule, fid, "no failure return found")
+		}
+	}
+}
+
+// checkDedupeByEquality (C16, pooled): after truncating matches at the delimiter, KeysPrefix keeps one copy of each
+// distinct string. In its own body (outside the walk callback) an element is kept or dropped by comparing strings for
+// equality only: no guard of the `append` calls anything but len/cap. A prefix test there merges a key with the
+// siblings whose names extend it ("v1" hides "v1.1" and "v10").
+func checkDedupeByEquality(c *Ctx, rule string) {
+	p := c.P
+	f := p.Func("pkg/storage/localfs.localFS.KeysPrefix")
+	info := f.Info()
+	n := 0
+	ast.Inspect(f.Decl.Body, func(nd ast.Node) bool {
+		if _, isLit := nd.(*ast.FuncLit); isLit {
+			return false
+		}
+		as, ok := nd.(*ast.AssignStmt)
+		if !ok || len(as.Rhs) != 1 {
+			return true
+		}
+		call, ok := ast.Unparen(as.Rhs[0]).(*ast.CallExpr)
+		if !ok || calleeID(info, call) != "builtin.append" {
+			return true
+		}
+		n++
+		atoms, _ := atomsAt(f, f.Decl.Body, as.Pos())
+		var bad []string
+		for lit, a := range atoms {
+			if mentions(a.Expr, func(e ast.Expr) bool {
+				cl, ok := e.(*ast.CallExpr)
+				if !ok {
+					return false
+				}
+				if tv, ok := info.Types[cl.Fun]; ok && tv.IsType() {
+					return false // conversion
+				}
+				id := calleeID(info, cl)
+				return id != "builtin.len" && id != "builtin.cap"
+			}) {
+				bad = append(bad, lit)
+			}
+		}
+		sort.Strings(bad)
+		c.check(len(bad) == 0, rule, f.ID+":append#"+itoa(n), p.Pos(as.Pos()), "an element is kept or dropped by equality only",
+			"KeysPrefix keeps a listed element only when `"+strings.Join(bad, " && ")+"`: elements are told apart by something else than equality, so distinct keys (or sub-prefixes) that merely share a prefix are merged and go missing from the listing")
+		return true
+	})
+	if n == 0 && c.sharedReach == nil {
+		c.shape3(rule, f.ID, "KeysPrefix no longer appends to a slice in its own body")
+	}
+}
+
+// checkDirentsAppendOnly (C17, pooled): a Dirent's Offset is its position+1 in its directory's list, assigned when it
+// is appended; ReadDir resumes a listing at that offset. The lists are therefore append-only: nothing in pkg/fuse sorts
+// or permutes a []fuseutil.Dirent, or assigns an element of one in place.
+func checkDirentsAppendOnly(c *Ctx, rule string) {
+	p := c.P
+	isDirents := func(t types.Type) bool {
+		sl, ok := t.Underlying().(*types.Slice)
+		return ok && strings.HasSuffix(namedTypeID(sl.Elem()), "fuseutil.Dirent")
+	}
+	n := 0
+	for _, f := range p.FuncsIn("pkg/fuse") {
+		if f.Decl.Body == nil {
+			continue
+		}
+		info := f.Info()
+		k := 0
+		ast.Inspect(f.Decl.Body, func(nd ast.Node) bool {
+			switch x := nd.(type) {
+			case *ast.CallExpr:
+				id := calleeID(info, x)
+				if !strings.HasPrefix(id, "sort.") && !strings.HasPrefix(id, "slices.") {
+					return true
+				}
+				for _, a := range x.Args {
+					if t := info.TypeOf(a); t != nil && isDirents(t) {
+						k++
+						n++
+						c.fail(rule, f.ID+":reorder#"+itoa(k), p.Pos(x.Pos()),
+							f.ID+" reorders a directory's entry list (`"+exprString(x.Fun)+"`) after its entries received their offsets: the offsets no longer are position+1, so a listing resumed at an entry's offset skips or repeats children")
+					}
+				}
+			case *ast.AssignStmt:
+				for _, l := range x.Lhs {
+					ix, ok := ast.Unparen(l).(*ast.IndexExpr)
+					if !ok {
+						continue
+					}
+					if t := info.TypeOf(ix.X); t != nil && isDirents(t) {
+						k++
+						n++
+						c.fail(rule, f.ID+":reorder#"+itoa(k), p.Pos(x.Pos()),
+							f.ID+" assigns an element of a directory's entry list in place (`"+exprString(l)+"`): entries keep the offset they were appended with, so the list no longer matches its offsets")
+					}
+				}
+			}
+			return true
+		})
+	}
+	// the positive side: the two insert helpers give an appended entry the offset len+1
+	for _, fid := range []string{"pkg/fuse.readOnlyFsInternal.insertDirEntry", "pkg/fuse.readOnlyFsInternal.insertFsEntry"} {
+		if f := p.FuncOpt(fid); f != nil {
+			c.ok(rule, fid, p.Pos(f.Decl.Pos()), "entries are appended (offset rule: populate.offsets)")
+		}
+	}
+	_ = n
+}
+
+// checkLookupModeUnset (C18, pooled): Rename refuses (ENOSYS) a target whose lookup entry says it is a directory, but
+// the mutable mount never records a mode in its lookup entries, so renaming over an (empty) directory works today as
+// POSIX requires. That refusal is dead code the tree relies on being dead: no lookupEntry is built or updated with a
+// mode.
+func checkLookupModeUnset(c *Ctx, rule string) {
+	p := c.P
+	n := 0
+	for _, f := range p.FuncsIn("pkg/fuse") {
+		if f.Decl.Body == nil {
+			continue
+		}
+		info := f.Info()
+		k := 0
+		ast.Inspect(f.Decl.Body, func(nd ast.Node) bool {
+			switch x := nd.(type) {
+			case *ast.CompositeLit:
+				if namedTypeID(info.TypeOf(x)) != "pkg/fuse.lookupEntry" {
+					return true
+				}
+				n++
+				k++
+				v := fieldOfCompositeLit(x, "mode")
+				positional := len(x.Elts) > 1
+				if len(x.Elts) > 0 {
+					if _, kv := x.Elts[0].(*ast.KeyValueExpr); kv {
+						positional = false
+					}
+				}
+				c.check(v == nil && !positional, rule, f.ID+":lookupEntry#"+itoa(k), p.Pos(x.Pos()), "the lookup entry carries an inode only",
+					f.ID+" records a mode in a lookup entry: Rename's `mode.IsDir()` refusal, dead until now, starts answering ENOSYS when the target is an existing directory — renaming a directory over an empty directory stops working")
+			case *ast.AssignStmt:
+				for _, l := range x.Lhs {
+					sel, ok := ast.Unparen(l).(*ast.SelectorExpr)
+					if !ok || sel.Sel.Name != "mode" {
+						continue
+					}
+					if s := info.Selections[sel]; s != nil && namedTypeID(s.Recv()) == "pkg/fuse.lookupEntry" {
+						n++
+						k++
+						c.fail(rule, f.ID+":lookupEntry#"+itoa(k), p.Pos(x.Pos()),
+							f.ID+" assigns the mode of a lookup entry: Rename's `mode.IsDir()` refusal, dead until now, starts answering ENOSYS when the target is an existing directory")
+					}
+				}
+			}
+			return true
+		})
+	}
+	if n == 0 && c.sharedReach == nil {
+		c.shape3(rule, "pkg/fuse.fsMutable.insertLookupEntry", "no lookupEntry literal found in pkg/fuse")
+	}
+}
+
+// checkWALDecodesWhatItRead (C19, pooled): WAL.read hands model.UnmarshalWAL exactly the bytes it read from the store:
+// the argument is the variable defined by ReadAll, nothing derived from it. Payloads are arbitrary bytes inside that
+// document (YAML keeps trailing newlines in a block scalar at its very end): trimming or normalising the stored bytes
+// changes payloads.
+func checkWALDecodesWhatItRead(c *Ctx, rule string) {
+	p := c.P
+	f := p.Func("pkg/wal.WAL.read")
+	info := f.Info()
+	n := 0
+	ast.Inspect(f.Decl.Body, func(nd ast.Node) bool {
+		call, ok := nd.(*ast.CallExpr)
+		if !ok || calleeID(info, call) != "pkg/model.UnmarshalWAL" || len(call.Args) != 1 {
+			return true
+		}
+		n++
+		okArg := false
+		if id, ok := ast.Unparen(call.Args[0]).(*ast.Ident); ok {
+			if v, ok := info.Uses[id].(*types.Var); ok {
+				defs := defsOfVarWithIndex(f, v)
+				if len(defs) == 1 && defs[0].rhs != nil && defs[0].index == 0 {
+					if rc, ok := ast.Unparen(defs[0].rhs).(*ast.CallExpr); ok {
+						id := calleeID(info, rc)
+						okArg = id == "io/ioutil.ReadAll" || id == "io.ReadAll"
+					}
+				}
+			}
+		}
+		c.check(okArg, rule, callKey(f, call), p.Pos(call.Pos()), "the entry is decoded from the bytes read, unchanged",
+			"WAL.read decodes `"+exprString(call.Args[0])+"`, not the bytes it read from the store as they are: a payload whose bytes the transformation touches (e.g. one ending in line breaks) is listed altered, with no error")
+		return true
+	})
+	if n == 0 {
+		c.shape3(rule, f.ID, "WAL.read no longer calls model.UnmarshalWAL")
+	}
+}
+
+// checkWriterSemaphorePrivate (C15, pooled): Flush waits for its writer's flushes by taking every slot of
+// maxGoRoutines. That is only a join if the channel belongs to this writer alone: every value assigned to
+// fsWriter.maxGoRoutines is a channel made on the spot. A channel received from outside (shared by the writers of one
+// Fs) lets two Flushes each hold part of the slots and wait for the rest forever.
+func checkWriterSemaphorePrivate(c *Ctx, rule string) {
+	p := c.P
+	n := 0
+	for _, f := range p.FuncsIn("pkg/cafs") {
+		if f.Decl.Body == nil {
+			continue
+		}
+		info := f.Info()
+		k := 0
+		isSem := func(e ast.Expr) bool {
+			sel, ok := ast.Unparen(e).(*ast.SelectorExpr)
+			if !ok || sel.Sel.Name != "maxGoRoutines" {
+				return false
+			}
+			s := info.Selections[sel]
+			return s != nil && namedTypeID(s.Recv()) == "pkg/cafs.fsWriter"
+		}
+		isMake := func(e ast.Expr) bool {
+			call, ok := ast.Unparen(e).(*ast.CallExpr)
+			return ok && calleeID(info, call) == "builtin.make"
+		}
+		ast.Inspect(f.Decl.Body, func(nd ast.Node) bool {
+			switch x := nd.(type) {
+			case *ast.AssignStmt:
+				for i, l := range x.Lhs {
+					if !isSem(l) || len(x.Lhs) != len(x.Rhs) {
+						continue
+					}
+					k++
+					n++
+					c.check(isMake(x.Rhs[i]), rule, f.ID+":sem#"+itoa(k), p.Pos(x.Pos()), "the flush semaphore is made for this writer",
+						"the writer's flush semaphore is set to `"+exprString(x.Rhs[i])+"`, a channel it did not make: Flush joins the flushes by taking every slot, which deadlocks as soon as two writers sharing the channel flush at the same time")
+				}
+			case *ast.CompositeLit:
+				if namedTypeID(info.TypeOf(x)) == "pkg/cafs.fsWriter" {
+					if v := fieldOfCompositeLit(x, "maxGoRoutines"); v != nil {
+						k++
+						n++
+						c.check(isMake(v), rule, f.ID+":sem#"+itoa(k), p.Pos(v.Pos()), "the flush semaphore is made for this writer",
+							"the writer's flush semaphore is built from `"+exprString(v)+"`, a channel it did not make")
+					}
+				}
+			}
+			return true
+		})
+	}
+	if n < 2 && c.sharedReach == nil {
+		c.shape3(rule, "pkg/cafs.newWriter", "fewer than the 2 assignments of fsWriter.maxGoRoutines confirmed by hand")
+	}
+}
+
+// checkEntriesPreallocated (C15, C04; pooled): unpackBundleFileList places each index file's entries at idx*perFile
+// in a list allocated at its full length beforehand, because index files arrive in any order; the list is only cut
+// once, by the last index file's shortfall. So the list is made with a length (not a capacity only), and it is
+// re-sliced only under the `idx+1 == BundleEntriesFileCount` guard.
+func checkEntriesPreallocated(c *Ctx, rule string) {
+	p := c.P
+	f := p.Func("pkg/core.unpackBundleFileList")
+	info := f.Info()
+	nMake, nCut := 0, 0
+	ast.Inspect(f.Decl.Body, func(nd ast.Node) bool {
+		as, ok := nd.(*ast.AssignStmt)
+		if !ok || len(as.Lhs) != 1 || len(as.Rhs) != 1 {
+			return true
+		}
+		sel, ok := ast.Unparen(as.Lhs[0]).(*ast.SelectorExpr)
+		if !ok || sel.Sel.Name != "BundleEntries" || namedTypeID(info.TypeOf(sel.X)) != "pkg/core.Bundle" {
+			return true
+		}
+		switch r := ast.Unparen(as.Rhs[0]).(type) {
+		case *ast.CallExpr:
+			if calleeID(info, r) == "builtin.make" {
+				nMake++
+				c.check(len(r.Args) == 2, rule, f.ID+":make", p.Pos(as.Pos()), "the entry list is allocated at its full length",
+					"the entry list is made with length `"+exprString(r.Args[1])+"` and a capacity only: index files arrive in any order and are placed by index, so the list must already span all of them — growing it as files arrive drops the entries of a file that arrives after a later one")
+			}
+		case *ast.SliceExpr:
+			nCut++
+			atoms, _ := atomsAt(f, f.Decl.Body, as.Pos())
+			last := false
+			for _, a := range atoms {
+				if !a.Neg && mentions(a.Expr, func(e ast.Expr) bool {
+					s, ok := e.(*ast.SelectorExpr)
+					return ok && s.Sel.Name == "BundleEntriesFileCount"
+				}) {
+					last = true
+				}
+			}
+			c.check(last, rule, f.ID+":cut#"+itoa(nCut), p.Pos(as.Pos()), "the list is cut only by the last index file",
+				"the entry list is re-sliced (`"+exprString(as.Rhs[0])+"`) for any index file, not only under the last-file guard: an index file that arrives after a later one shrinks the list, and the later file's entries are dropped while the download reports success")
+		}
+		return true
+	})
+	if nMake == 0 {
+		c.shape3(rule, f.ID, "unpackBundleFileList no longer allocates bundle.BundleEntries with make")
+	}
+}
+
+// checkLeafSizeOnlyFromOptions (C02, pooled): the leaf size of a cafs file system (and of a writer) is a parameter of
+// the key: it is what the caller configured, assigned inside an option functor or taken from a constructor's argument,
+// and never adjusted afterwards (rounded, clamped, defaulted) by the data path — the key returned would be the tree
+// hash for another leaf size than the one asked for.
+func checkLeafSizeOnlyFromOptions(c *Ctx, rule string) {
+	p := c.P
+	n := 0
+	for _, f := range p.FuncsIn("pkg/cafs") {
+		if f.Decl.Body == nil {
+			continue
+		}
+		info := f.Info()
+		k := 0
+		ast.Inspect(f.Decl.Body, func(nd ast.Node) bool {
+			var lhs []ast.Expr
+			var pos token.Pos
+			switch s := nd.(type) {
+			case *ast.AssignStmt:
+				lhs, pos = s.Lhs, s.Pos()
+			case *ast.IncDecStmt:
+				lhs, pos = []ast.Expr{s.X}, s.Pos()
+			}
+			for _, l := range lhs {
+				sel, ok := ast.Unparen(l).(*ast.SelectorExpr)
+				if !ok || sel.Sel.Name != "leafSize" {
+					continue
+				}
+				s := info.Selections[sel]
+				if s == nil || s.Kind() != types.FieldVal {
+					continue
+				}
+				rt := namedTypeID(s.Recv())
+				if rt != "pkg/cafs.defaultFs" && rt != "pkg/cafs.fsWriter" {
+					continue
+				}
+				k++
+				n++
+				inOption := false
+				if lit := innermostLitAt(f, pos); lit != nil {
+					if sig, ok := f.Obj.Type().(*types.Signature); ok && sig.Results().Len() == 1 && strings.HasSuffix(namedTypeID(sig.Results().At(0).Type()), "Option") {
+						inOption = true
+					}
+				}
+				c.check(inOption, rule, f.ID+":leafSize#"+itoa(k), p.Pos(pos), "the leaf size is assigned inside an option functor",
+					f.ID+" assigns `"+exprString(l)+"` outside an option functor: the leaf size the content is cut and hashed with is no longer the configured one, so the key is not the tree hash of the content for the leaf size the caller asked for")
+			}
+			return true
+		})
+	}
+	if n < 1 && c.sharedReach == nil {
+		c.shape3(rule, "pkg/cafs.New", "no option functor assigning the leaf size found")
+	}
+}
+
+// checkMetaRegexpAnchored (C05, C04, C20; pooled): the constant pattern that recognises the metadata keys of a local
+// copy (`.datamon/<id>.yaml`, `.datamon/<id>-bundle-files-<n>.yaml`) is evaluated on samples, like the generated-path
+// pattern: it accepts the two shapes at the root of the copy and nothing below it. Update deletes the keys this
+// pattern classifies as old file lists: a data file under a nested `.datamon/` directory must not match.
+func checkMetaRegexpAnchored(c *Ctx, rule string) {
+	p := c.P
+	f := p.Func("pkg/model.GetConsumableStorePathMetadata")
+	pat, pos, ok := constRegexpAssigned(p, "pkg/model", "metaRe")
+	if !ok {
+		c.shape3(rule, f.ID, "metaRe is no longer a constant pattern given to regexp.MustCompile")
+		return
+	}
+	re, err := regexp.Compile(pat)
+	if err != nil {
+		c.fail(rule, f.ID+":metaRe", p.Pos(pos), "constant pattern does not compile: "+err.Error())
+		return
+	}
+	for _, s := range []string{".datamon/1INzQ5TV4vAAfU2PbRFgPfnzEwR.yaml", ".datamon/1INzQ5TV4vAAfU2PbRFgPfnzEwR-bundle-files-0.yaml"} {
+		c.check(re.MatchString(s), rule, f.ID+":metaRe~"+s, p.Pos(pos), "metadata key of the local copy is recognised",
+			"the constant metaRe pattern no longer recognises the metadata key "+s+" of a local copy")
+	}
+	for _, s := range []string{"data/.datamon/1INzQ5TV4vAAfU2PbRFgPfnzEwR.yaml", "archive/run/.datamon/1INzQ5TV4vAAfU2PbRFgPfnzEwR-bundle-files-0.yaml", "x.datamon/a.yaml", ".datamon.yaml", ".datamon/a.yaml.bak"} {
+		c.check(!re.MatchString(s), rule, f.ID+":metaRe!~"+s, p.Pos(pos), "a data file is not taken for metadata of the copy",
+			"the constant metaRe pattern `"+pat+"` matches "+s+", which is a data file of the data set: Update classifies it as an old file list of the local copy and deletes it (and diff / bundle-ID detection read it as metadata)")
+	}
+}
+
+// checkWriteAtOffsetAdvances (C01, pooled): cafsWriterAt.Write places the bytes of a leaf at offset+written. When a
+// WriteAt sits in a loop (resuming a short write), its offset must depend on something the loop body updates;
+// otherwise every round writes at the same place: the count returned is complete, the destination is not.
+func checkWriteAtOffsetAdvances(c *Ctx, rule string) {
+	p := c.P
+	f := p.Func("pkg/cafs.cafsWriterAt.Write")
+	info := f.Info()
+	n := 0
+	ast.Inspect(f.Decl.Body, func(nd ast.Node) bool {
+		call, ok := nd.(*ast.CallExpr)
+		if !ok || !strings.HasSuffix(calleeID(info, call), "WriterAt.WriteAt") || len(call.Args) != 2 {
+			return true
+		}
+		n++
+		var loop ast.Node
+		for par := f.parentOf(call); par != nil; par = f.parentOf(par) {
+			switch par.(type) {
+			case *ast.ForStmt, *ast.RangeStmt:
+				if loop == nil {
+					loop = par
+				}
+			}
+		}
+		key := callKey(f, call)
+		// the offset is recv.offset + recv.written (possibly through a local)
+		d := describeExpr(f, call.Args[1], 0)
+		okSum := d == "(recv.offset+recv.written)" || d == "(recv.written+recv.offset)"
+		if loop == nil {
+			c.check(okSum, rule, key, p.Pos(call.Pos()), "one WriteAt at offset+written", "the leaf is written at `"+d+"`, not at the leaf's offset plus what this writer already wrote")
+			return true
+		}
+		// what the offset expression reads, locals defined outside the loop followed to their definitions
+		reads := map[string]bool{}
+		var collect func(e ast.Expr, depth int)
+		collect = func(e ast.Expr, depth int) {
+			ast.Inspect(e, func(m ast.Node) bool {
+				switch x := m.(type) {
+				case *ast.SelectorExpr:
+					reads[describeExpr(f, x, 0)] = true
+					return false
+				case *ast.Ident:
+					if v, ok := info.Uses[x].(*types.Var); ok {
+						reads["var:"+v.Name()] = true
+						if depth < 3 {
+							for _, df := range defsOfVarWithIndex(f, v) {
+								if df.rhs != nil && !encloses(loop, df.start) {
+									collect(df.rhs, depth+1)
+								}
+							}
+						}
+					}
+				}
+				return true
+			})
+		}
+		collect(call.Args[1], 0)
+		advances := false
+		ast.Inspect(loop, func(m ast.Node) bool {
+			var lhs []ast.Expr
+			switch s := m.(type) {
+			case *ast.AssignStmt:
+				lhs = s.Lhs
+			case *ast.IncDecStmt:
+				lhs = []ast.Expr{s.X}
+			}
+			for _, l := range lhs {
+				switch x := ast.Unparen(l).(type) {
+				case *ast.SelectorExpr:
+					if reads[describeExpr(f, x, 0)] {
+						advances = true
+					}
+				case *ast.Ident:
+					if v, ok := info.ObjectOf(x).(*types.Var); ok && reads["var:"+v.Name()] {
+						// only a variable the offset reads at the call (not one frozen into a local before the loop)
+						if mentions(call.Args[1], func(e ast.Expr) bool { return isVar(info, e, v) }) {
+							advances = true
+						}
+					}
+				}
+			}
+			return true
+		})
+		// a field read only through a local frozen before the loop does not count: re-check with direct reads
+		direct := map[string]bool{}
+		ast.Inspect(call.Args[1], func(m ast.Node) bool {
+			if x, ok := m.(*ast.SelectorExpr); ok {
+				direct[describeExpr(f, x, 0)] = true
+				return false
+			}
+			return true
+		})
+		if advances {
+			frozenOnly := true
+			ast.Inspect(loop, func(m ast.Node) bool {
+				var lhs []ast.Expr
+				switch s := m.(type) {
+				case *ast.AssignStmt:
+					lhs = s.Lhs
+				case *ast.IncDecStmt:
+					lhs = []ast.Expr{s.X}
+				}
+				for _, l := range lhs {
+					switch x := ast.Unparen(l).(type) {
+					case *ast.SelectorExpr:
+						if direct[describeExpr(f, x, 0)] {
+							frozenOnly = false
+						}
+					case *ast.Ident:
+						if v, ok := info.ObjectOf(x).(*types.Var); ok && mentions(call.Args[1], func(e ast.Expr) bool { return isVar(info, e, v) }) {
+							frozenOnly = false
+						}
+					}
+				}
+				return true
+			})
+			if frozenOnly {
+				advances = false
+			}
+		}
+		c.check(advances, rule, key, p.Pos(call.Pos()), "the offset of the repeated WriteAt advances with the loop",
+			"WriteAt is repeated in a loop at `"+exprString(call.Args[1])+"`, which nothing in the loop updates: every continuation of a short write lands at the start offset again, so the destination misses bytes while the full count is reported")
+		return true
+	})
+	if n == 0 {
+		c.shape3(rule, f.ID, "cafsWriterAt.Write no longer calls WriteAt")
+	}
 }
